@@ -46,8 +46,11 @@ def run(ctx):
         with ctx.obligation('C11.REF', 'bech32.' + fn, None, fi.where) as ob:
             refcmp.compare(ob, p, ref, 'bech32', fn, same_term)
     with ctx.obligation('C11.NOEXTRA', 'bech32 module surface', None, mi.relpath) as ob:
-        ob.require(set(mi.functions) == set(FUNCS), 'the module defines exactly the reference functions', mi.relpath,
+        ob.require(set(mi.functions) >= set(FUNCS), 'the module defines every reference function', mi.relpath,
                    expected=sorted(FUNCS), found=sorted(mi.functions))
+        extra = sorted(set(mi.functions) - set(FUNCS))
+        if extra:
+            ob.note('helpers without a reference counterpart (inlined into their callers for the comparison): %s' % ', '.join(extra))
         refm = ref.get_module('bech32')
         for name in ('CHARSET', 'BECH32M_CONST'):
             ob.require(len(mi.assigns.get(name, [])) == 1, '%s is bound exactly once' % name, mi.relpath)
